@@ -140,6 +140,13 @@ class Evaluator:
 
                 return getattr(posixpath, norm(e.func).split(".")[-1])(v)
             return UNKNOWN
+        if isinstance(e, ast.Call) and norm(e.func) in ("os.path.join", "os.path.normpath") and e.args and not e.keywords:
+            vs = [self.eval(a, env) for a in e.args]
+            if all(isinstance(v, str) for v in vs):
+                import posixpath
+
+                return getattr(posixpath, norm(e.func).split(".")[-1])(*vs)
+            return UNKNOWN
         if isinstance(e, ast.Call) and isinstance(e.func, ast.Attribute) and e.func.attr in ("partition", "rpartition", "split", "rsplit", "removesuffix", "removeprefix", "count", "find", "rfind", "index", "isdigit", "replace") and not e.keywords:
             recv = self.eval(e.func.value, env)
             args = [self.eval(a, env) for a in e.args]
